@@ -188,7 +188,26 @@ func runC15(r *rep.Report, thorough bool) error {
 		for tname := range sp.Rand {
 			q := a.Env.PkgPath + "." + tname
 			in := map[string]any{"case": sp.Case, "type": tname, "sources": a.Case.Sources()}
+			// the termination theorem (C15_terminates) on this function: does the static check hold
+			// for the type as analysed from a fresh load
+			staticEnv := a.Env
+			if a.FirstEnv != nil {
+				staticEnv = a.FirstEnv
+			}
+			returns := false
+			if st, err := d.Call(map[string]any{"op": "c15.judge", "env": staticEnv, "type": map[string]any{"k": "ref", "q": q}, "values": []any{}}); err == nil {
+				returns, _ = st["returns"].(bool)
+			}
+			if returns {
+				r.Hist("termination-theorem:function-covered")
+			} else {
+				r.Hist("termination-theorem:static-check-fails(recursive type, enum without exported constant, ...)")
+			}
 			lines, fatal := gorun.RunRand(bin, sp.Case, tname, k)
+			if returns && fatal != "" {
+				r.Disagree(rep.Disagreement{Tie: "c15.termination-theorem-vs-real-function", Input: in,
+					Model: "theorem C15_terminates: the static check holds, the generated function returns whatever the draws", Impl: "the compiled function does not return: " + fatal})
+			}
 			nontrivial := strings.Contains(fmt.Sprint(lines), "iface") || strings.Contains(fmt.Sprint(lines), "list") || strings.Contains(fmt.Sprint(lines), "map")
 			r.Case(map[string]any{"case": sp.Case, "type": tname, "calls": len(lines), "fatal": fatal}, nontrivial || fatal != "")
 			if fatal != "" {
@@ -208,6 +227,10 @@ func runC15(r *rep.Report, thorough bool) error {
 						sig = "c15:panic:enum-without-exported-member"
 					}
 					r.Fail(rep.Failure{Signature: sig, What: "the generated rand function panics: " + ln.Panic, Input: in})
+					if returns {
+						r.Disagree(rep.Disagreement{Tie: "c15.termination-theorem-vs-real-function", Input: in,
+							Model: "theorem C15_terminates: the static check holds, the generated function returns whatever the draws", Impl: "the compiled function panics: " + ln.Panic})
+					}
 					continue
 				}
 				if ln.MarshalErr != "" || ln.UnmarshalErr != "" || !ln.RoundTrip {
